@@ -253,7 +253,7 @@ func c05Alphabet() []c05Cmd {
 		{kind: "add", svc: "sb", host: "foo.com", path: "/", dst: h3, w: 0.2, tags: []string{"a"}},
 		{kind: "add", svc: "sb", host: "", path: "/x", dst: h3, opts: map[string]string{"strip": "/x", "proto": "http", "token": "a=b=="}}, // an option value may itself contain '='
 		{kind: "add", svc: "sa", host: "foo.com", path: "/x", dst: h1},
-		{kind: "add", svc: "sa", host: "foo.com", path: "/x", dst: h1 + "#frag", tags: []string{"build#12"}}, // '#' is data inside a command, not a comment
+		{kind: "add", svc: "sa", host: "foo.com", path: "/x", dst: h1 + "#frag", tags: []string{`build#12\no`}}, // '#' is data inside a command, not a comment; a backslash is a character like any other (no escapes inside the quotes)
 		{kind: "add", svc: "sa", host: "foo.com", path: "/", dst: h1, w: 0.5},
 		{kind: "add", svc: "sd", host: "foo.com", path: "/", dst: "http://10.0.0.4:80/", w: 1}, // takes all the traffic: its siblings get a share of zero and are targets all the same
 		{kind: "add", svc: "sa", host: "foo.com", path: "/", dst: h1, w: -1}, // negative = no fixed weight: same target as the first command
@@ -303,7 +303,7 @@ func c05Script(alpha []c05Cmd, script []int) string {
 
 func TestVerifC05Commands(t *testing.T) {
 	L := ev.Begin("C05", "c05-commands", "model_checking",
-		"explicit-state BFS over route command scripts: 26 commands (a target with weight 1 next to others, '#' inside a destination and a tag, a non-positive weight on a target that has a fixed one, paths differing only in letter case, an option value containing '=', add incl. host-case / weight / tags / opts / near-miss destination variants, the 5 del forms, the 3 weight forms); state = canonical reference table; every (state,command) transition rebuilds the real table with NewTable(shortest script + command) and compares hosts, routes, ordered targets (service, url, fixed weight, tags, opts) with the reference interpreter; every state round-trips through Parse(t.String()). non-trivial = transition that changes the state")
+		"explicit-state BFS over route command scripts: 26 commands (a target with weight 1 next to others, '#' inside a destination and a tag, a backslash inside a tag, a non-positive weight on a target that has a fixed one, paths differing only in letter case, an option value containing '=', add incl. host-case / weight / tags / opts / near-miss destination variants, the 5 del forms, the 3 weight forms); state = canonical reference table; every (state,command) transition rebuilds the real table with NewTable(shortest script + command) and compares hosts, routes, ordered targets (service, url, fixed weight, tags, opts) with the reference interpreter; every state round-trips through Parse(t.String()). non-trivial = transition that changes the state")
 	alpha := c05Alphabet()
 	maxDepth := 5
 	if ev.Thorough() {
